@@ -1,3 +1,30 @@
-// Kani contracts for /repo/src/stdlib/to_int.rs (child module via cfg(kani) hook).
+// Kani contracts for /repo/src/stdlib/to_int.rs
 #![allow(warnings)]
 use super::*;
+use crate::compiler::kani_support::*;
+use ordered_float::NotNan;
+
+// @unit tier=q prop=C29 float=1 fn=to_int
+#[kani::proof]
+#[kani::unwind(2)]
+#[kani::stub(alloc::fmt::format, stub_format)]
+#[kani::stub(regex::Regex::new, stub_regex_new)]
+#[kani::stub(crate::compiler::conversion::Conversion::convert, stub_conversion_convert)]
+fn k_to_int_scalar() {
+    let i: i64 = kani::any();
+    let r1 = to_int(Value::Integer(i));
+    assert!(matches!(&r1, Ok(Value::Integer(x)) if *x == i), "C29.to_int.int: to_int of an integer is that integer");
+    let f: f64 = kani::any();
+    kani::assume(!f.is_nan());
+    let r2 = to_int(Value::Float(NotNan::new(f).unwrap()));
+    assert!(matches!(&r2, Ok(Value::Integer(x)) if *x == (f as i64)), "C29.to_int.float: to_int of a float truncates toward zero and saturates (`as i64`)");
+    let b: bool = kani::any();
+    let r3 = to_int(Value::Boolean(b));
+    assert!(matches!(&r3, Ok(Value::Integer(x)) if *x == (b as i64)), "C29.to_int.bool: to_int(true) == 1, to_int(false) == 0");
+    let r4 = to_int(Value::Null);
+    assert!(matches!(&r4, Ok(Value::Integer(0))), "C29.to_int.null: to_int(null) == 0");
+    core::mem::forget(r1);
+    core::mem::forget(r2);
+    core::mem::forget(r3);
+    core::mem::forget(r4);
+}
